@@ -229,6 +229,20 @@ def check(run: Run) -> None:
     run.floor("I2", nattr, 1000, "module attribute reads")
     run.sample({"rule": "I5", "applications_checked": napps})
 
+    # ---- informational: order-sensitive projections (NOT decided, listed for a dynamic technique to aim at)
+    proj = []
+    for name in sorted(cat):
+        m = src.mods[name]
+        for x in ast.walk(m.tree):
+            if isinstance(x, ast.Subscript) and isinstance(x.slice, ast.Constant) and isinstance(x.slice.value, int):
+                v = x.value
+                if isinstance(v, ast.Call) and (dotted(v.func) or "").split(".")[-1] in ("solve", "solveset", "roots") and x.slice.value not in (0, ):
+                    proj.append(f"{m.rel}:{x.lineno} {norm(x, 70)}")
+                elif isinstance(v, ast.Attribute) and v.attr in ("args", "free_symbols") or (isinstance(v, ast.Call) and (dotted(v.func) or "") in ("list", "tuple", "sorted") and v.args
+                                                                                       and isinstance(v.args[0], ast.Attribute) and v.args[0].attr in ("free_symbols", "atoms")):
+                    proj.append(f"{m.rel}:{x.lineno} {norm(x, 70)}")
+    run.notes["order_sensitive_projections_not_decided"] = proj[:60]
+
     # ---- I3
     neff = 0
     for name in sorted(cat):
